@@ -869,9 +869,33 @@ fn cname_case(cx: &mut Ctx, msg: &[u8], pos: usize, rd: usize, end: usize) {
 /// whole-message iteration: the new MessageParser against the old Message (questions, then
 /// every record of the three sections), and T2 kind `mparse`.  The records carry types the new
 /// RecordData does not know (their typed parse cannot fail) or are the OPT record.
+/// true when every record the untyped reader finds (following the header counts) has a type
+/// whose typed RecordData parse cannot fail on well-framed RDATA: a type the new RecordData does
+/// not know, or OPT (whose option framing the model checks).  Otherwise the typed parse of the
+/// real iterator may refuse RDATA that neither the model nor the old Message iteration looks at.
+fn opaque_only(msg: &[u8]) -> bool {
+    const KNOWN: [u16; 19] = [1, 2, 5, 6, 12, 13, 15, 16, 17, 28, 33, 39, 43, 46, 47, 48, 50, 51, 63];
+    let m = msg.to_vec();
+    catch(move || {
+        let Ok(mm) = <&Message>::parse_bytes(&m) else { return true };
+        let c = &mm.contents;
+        let counts = [mm.header.counts.questions.get(), mm.header.counts.answers.get(), mm.header.counts.authorities.get(), mm.header.counts.additionals.get()];
+        let mut off = 0usize;
+        for _ in 0..counts[0] { match Question::<NameBuf>::split_message_bytes(c, off) { Ok((_, e)) => off = e, Err(_) => return true } }
+        for s in 1..4 { for _ in 0..counts[s] {
+            match Record::<NameBuf, &UnparsedRecordData>::split_message_bytes(c, off) {
+                Ok((r, e)) => { off = e; if KNOWN.contains(&r.rtype.code.get()) { return false; } }
+                Err(_) => return true,
+            }
+        } }
+        true
+    }).unwrap_or(true)
+}
+
 fn mparse_case(cx: &mut Ctx, msg: &[u8], kind: &str) {
     cx.idx += 1;
     if !cx.out.wants(cx.idx) { return; }
+    if !opaque_only(msg) { cx.out.count("mparse:skipped-typed-rdata"); return; }
     let case = format!("mparse {}", hex(msg));
     cx.out.begin(&case);
     let mv = msg.to_vec();
@@ -884,7 +908,7 @@ fn mparse_case(cx: &mut Ctx, msg: &[u8], kind: &str) {
                 Ok(MessageItem::Question(q)) => items.push(format!("Q:{}:{}:{}", hex(&unreverse(q.qname.as_bytes()).unwrap_or_default()), q.qtype.code.get(), q.qclass.code.get())),
                 Ok(MessageItem::Edns(e)) => items.push(format!("E:{}:{}:{}:{}:{}", e.max_udp_payload.get(), e.ext_rcode, e.version, e.flags.bits(), (*e.data).as_bytes().len())),
                 Ok(MessageItem::Answer(r)) | Ok(MessageItem::Authority(r)) | Ok(MessageItem::Additional(r)) => {
-                    let rdlen = match &r.rdata { RecordData::Unknown(_, u) => { let b: &[u8] = u.as_bytes(); b.len() as i64 } _ => -1 };
+                    let rdlen = match &r.rdata { RecordData::Unknown(_, u) => { let b: &[u8] = u.as_bytes(); b.len() as i64 } RecordData::Opt(o) => o.as_bytes().len() as i64, _ => -1 };
                     items.push(format!("R:{}:{}:{}:{}:{}", hex(&unreverse(r.rname.as_bytes()).unwrap_or_default()), r.rtype.code.get(), r.rclass.code.get(), r.ttl.value.get(), rdlen));
                 }
             }
@@ -933,7 +957,7 @@ fn counted_message(rng: &mut Rng) -> (Vec<u8>, Vec<usize>) {
         if np.is_empty() || rng.chance(1, 2) { m.push(0); } else { let t = *rng.pick(&np[..]); m.push(0xc0 | (t >> 8) as u8); m.push(t as u8); }
         if m.len() - here > 2 { np.push(here); }
     };
-    for _ in 0..counts[0] { name(&mut m, rng, &mut np); m.extend_from_slice(&[0, 1, 0, 1]); bounds.push(m.len()); }
+    for _ in 0..counts[0] { name(&mut m, rng, &mut np); m.extend_from_slice(&[0xff, 0, 0, 1]); bounds.push(m.len()); }
     for s in 1..4 {
         for i in 0..counts[s] {
             if s == 3 && i + 1 == counts[3] && rng.chance(1, 2) {
